@@ -16,8 +16,10 @@ TEMPLATES = {
     "overlap": "CmdB\nCmdC\nMark: M1\nCmdB\nWait: 2s\n",
     "mixed": "CmdA\nCmdB\nCmdA\nCmdC\nWait: 2s\n",
     "in_watch": "Watch: In1 > 0\n    CmdB\n    CmdA\nCmdC\nMark: M1\nCmdA\nWait: 2s\n",
+    # CmdC is declared in two overlap lists: requesting it must cancel both CmdA and CmdB
+    "two_lists": "CmdA\nCmdB\nMark: M1\nCmdC\nWait: 2s\n",
 }
-OVERLAPS = [{"CmdB", "CmdC"}]
+OVERLAP_LISTS = {"two_lists": [["CmdB", "CmdC"], ["CmdA", "CmdC"]]}
 N = 16
 INJECT = {"injA": "CmdA", "injB": "CmdB", "injC": "CmdC"}
 
@@ -39,7 +41,9 @@ def harness(sym):
     if ev in INJECT:
         # injection is done through the scenario runner's event hook
         kinds = (ev,)
-    sc = _run(sym, t, pc, durations, fail_at, ev, te)
+    overlaps = OVERLAP_LISTS.get(t, [["CmdB", "CmdC"]])
+    OVERLAPS = [set(x) for x in overlaps]
+    sc = _run(sym, t, pc, durations, fail_at, ev, te, overlaps)
     # ---- monitor over the callback log -------------------------------------------------------------
     by_inst = {}
     for (tt, name, iid, kind) in sc.uod:
@@ -77,12 +81,12 @@ def harness(sym):
     sym.check(len(sc.command_instances) == 0, "instance-left-after-stop", f"{t}/{ev}: {list(sc.command_instances)}")
 
 
-def _run(sym, t, pc, durations, fail_at, ev, te):
+def _run(sym, t, pc, durations, fail_at, ev, te, overlaps=None):
     """Scenario with the event, followed by a final Stop + 3 ticks so that every started command must be finalized."""
     from props.interp_common import Scenario, snapshot_runlog
     from props.engine_common import engine_rig
     sc = Scenario()
-    with engine_rig(sym, pc, durations=durations, fail_at=fail_at) as rig:
+    with engine_rig(sym, pc, durations=durations, fail_at=fail_at, overlaps=overlaps) as rig:
         e = rig.engine
         rig.user("Start")
         for i in range(N):
@@ -135,9 +139,9 @@ OBLIGATIONS = [Obligation(
              "openpectus.engine.command_manager:CommandManager.cancel_commands", "openpectus.lang.exec.uod:UodCommand.finalize",
              "openpectus.lang.exec.uod:UodCommand.execute"],
     symbolic="durations of CmdA/CmdB/CmdC (1..6 iterations), failing iteration of one command (0..3), tick of the event (1..12), targeted run-log item for cancel",
-    bounds={"quick": "durations 1..3; 4 templates (same-name re-issue, overlapping pair, mixed, commands in a Watch) x {no event, Stop, cancel, injection of CmdA/CmdB/CmdC, failing exec of CmdA/CmdB}, 16 ticks, final Stop",
+    bounds={"quick": "durations 1..3; 5 templates (same-name re-issue, overlapping pair, mixed, commands in a Watch, a command in two overlap lists) x {no event, Stop, cancel, injection of CmdA/CmdB/CmdC, failing exec of CmdA/CmdB}, 16 ticks, final Stop",
             "thorough": "same with durations 1..6"},
-    assumptions=["overlap list {CmdB, CmdC}", "one event per run, issued between ticks", "every scenario ends with a Stop so 'finalized exactly once' is checkable",
+    assumptions=["overlap list {CmdB, CmdC}; template two_lists also declares {CmdA, CmdC}", "one event per run, issued between ticks", "every scenario ends with a Stop so 'finalized exactly once' is checkable",
                  "fake hardware; log statements removed at import"],
 )]
 
